@@ -1,9 +1,9 @@
 ---- MODULE MC_Repr ----
 EXTENDS Repr
 ShAll == {"kw", "pos2", "poskw", "closed"}
-AV == {"0", "3", "neg", "inf", "big"}
-AVq == {"0", "neg", "inf"}
-BV == {"4", "7", "9"}
+AV == {"0", "3", "neg", "inf", "big", "none"}
+AVq == {"0", "neg", "inf", "none"}
+BV == {"4", "7", "9", "none"}
 SV == {"empty", "plain", "escapes", "unicode"}
 SVq == {"empty", "escapes"}
 LV == {"empty", "nested", "onetuple", "withinf"}
